@@ -337,6 +337,8 @@ def core_configs():
         C('t2adrfs', P=2, restarting={'max_restarts': 20, 'restart_from_first_step': True}, **adr),
         C('t4adrfslin', P=4, restarting={'max_restarts': 20, 'restart_from_first_step': True},
           **dict(adr, adaptivity={'e_tol': 2e-6, 'embedded_error_flavor': 'linearized'})),
+        C('t3adrfs_max1', P=3, restarting={'max_restarts': 1, 'restart_from_first_step': True, 'crash_after_max_restarts': False},
+          **dict(adr, dt=0.03, Tend=0.045, adaptivity={'e_tol': 1e-6})),
         C('t3adrst', P=3, restarting={'max_restarts': 20, 'restart_from_first_step': False}, **adr),
         C('t3adrst_sp', P=3, restarting={'max_restarts': 20, 'restart_from_first_step': False, 'crash_after_max_restarts': False},
           spread={'spread_from_first_restarted': False, 'overwrite_to_reach_Tend': False}, **adr),
@@ -748,6 +750,16 @@ def run(ck):
                 for field, detail in rest[:1]:
                     if field == 'mpi-run-failed' and any(e and e[0] == 'SimError' for e in m['errors']):
                         continue    # reported precisely below (MPI misuse detected by the simulator)
+                    step0 = detail.get('step') if isinstance(detail, dict) else None
+                    alias = [b[1]['step'] for b in ria if b[1]['step'][1] == 0]
+                    if step0 is not None and alias and tuple(min(alias)) <= tuple(step0[:2]):
+                        # the first step of this (or an earlier) block already carries a different restart counter
+                        # (serial-side aliasing, reported above): max_restarts decisions legitimately diverge from here
+                        viol('MPI variant differs from the serial emulation: %s (consequence of the aliased serial restart counter)' % field,
+                             {'cfg': cfg, 'schedule': spec, 'detail': detail, 'first_aliased_counter': min(alias)},
+                             {'kind': 'serial-vs-mpi', 'field': 'restarts_in_a_row', 'cause': 'restart_counter_aliasing',
+                              'consequence': field})
+                        continue
                     match = {'kind': 'deadlock' if field == 'deadlock' else 'serial-vs-mpi', 'field': field,
                              'cfg_kind': cfg['kind'], 'feature': feature_of(cfg),
                              'jacobi': bool(cfg.get('mssdc_jac', True)) and cfg.get('nlev', 1) == 1,
@@ -768,6 +780,11 @@ def run(ck):
                                 sdt = detail.get('serial')
                                 match['cause_hint'] = ('serial_dt_max_clip' if isinstance(sdt, float) and abs(sdt - clip) <= 1e-12 * max(1.0, abs(clip))
                                                        else 'other')
+                    if field == 'restart' and step is not None and cfg.get('restarting'):
+                        # a restart granted by one flavour only although the block's first step sits exactly at max_restarts
+                        p0 = [r for r in ser['recs'] if r['ev'] == 'pre' and r['block'] == step[0] and r['slot'] == 0]
+                        if p0 and p0[0]['ria'] == cfg['restarting'].get('max_restarts'):
+                            match['cause_hint'] = 'counter_equals_max_restarts'
                     viol('MPI variant differs from the serial emulation: %s' % field,
                          {'cfg': cfg, 'schedule': spec, 'detail': detail, 'n_discrepancies': len(rest),
                           'all_fields': sorted({b[0] for b in rest})}, match)
